@@ -45,7 +45,11 @@ class fixed_scalar_array(base_array):
 
     def __setitem__(self, idx, value):
         if isinstance(idx, slice):
-            self.__setslice__(idx.start, idx.stop, value)
+            if idx.step in (None, 1):
+                self.__setslice__(idx.start, idx.stop, value)
+            else:
+                # extended slice: as with lists, the sizes must match, so the length is kept
+                self._values[idx] = [self._TYPE._check(elem) for elem in value]
         else:
             value = self._TYPE._check(value)
             self._values[idx] = value
@@ -95,7 +99,11 @@ class bound_scalar_array(base_array):
 
     def __setitem__(self, idx, value):
         if isinstance(idx, slice):
-            self.__setslice__(idx.start, idx.stop, value)
+            if idx.step in (None, 1):
+                self.__setslice__(idx.start, idx.stop, value)
+            else:
+                # extended slice: as with lists, the sizes must match, so the length is kept
+                self._values[idx] = [self._TYPE._check(elem) for elem in value]
         else:
             value = self._TYPE._check(value)
             self._values[idx] = value
